@@ -10,6 +10,7 @@ import (
 	"time"
 
 	"github.com/ohler55/slip"
+	"github.com/ohler55/slip/pp"
 
 	"verifharness/internal/h"
 )
@@ -17,10 +18,22 @@ import (
 // C19: sessions printed by World.tla. Stimulus: {"id":1,"items":["wp1","wf1"],"forms":["(defparameter wp1 12)",...],"probes":["wp1","(wf1 5)",...]}
 // Every session is a process of its own (`vdrive c19session`): the first evaluates the forms, answers the probes and
 // takes a snapshot; the second starts fresh, loads the snapshot, answers the probes and takes a snapshot again.
-// Event: {"id","items","p1":[...],"st2":"ok"|...,"p2":[...],"same":bool,"snap":first snapshot (cut)}
+// The first session also writes the load form (make-load-form) of every object of the session (World.tla Objs),
+// pretty-printed under several right margins; for every distinct text a third fresh process evaluates the texts and
+// answers the probes.
+// Event: {"id","items","p1":[...],"st2":"ok"|...,"p2":[...],"same":bool,"snap":first snapshot (cut),
+//
+//	"lf":[{"margins":[20,28],"st":"ok"|...,"p":[...],"texts":[...]}]}
 func init() {
 	drivers["c19"] = c19
 	drivers["c19session"] = c19session
+}
+
+type c19Obj struct {
+	Anchor string `json:"anchor"`
+	Expr   string `json:"expr"`
+	Pre    string `json:"pre"`
+	Post   string `json:"post"`
 }
 
 type c19Stim struct {
@@ -28,19 +41,31 @@ type c19Stim struct {
 	Items  []string `json:"items"`
 	Forms  []string `json:"forms"`
 	Probes []string `json:"probes"`
+	Objs   []c19Obj `json:"objs"`
 }
 
 type c19Job struct {
 	Forms  []string `json:"forms"`
 	Snap   string   `json:"snap"`
 	Probes []string `json:"probes"`
+	Objs   []c19Obj `json:"objs"`
+}
+
+// the load forms of the objects of a session, pretty-printed under one right margin and wrapped (pre, post)
+type c19Texts struct {
+	Margin int      `json:"margin"`
+	St     string   `json:"st"`
+	Texts  []string `json:"texts"`
 }
 
 type c19Res struct {
-	St     string   `json:"st"`
-	Probes []string `json:"probes"`
-	Snap   string   `json:"snap"`
+	St     string     `json:"st"`
+	Probes []string   `json:"probes"`
+	Snap   string     `json:"snap"`
+	LF     []c19Texts `json:"lf"`
 }
+
+var c19Margins = []int{20, 28, 40, 56, 80, 120}
 
 // the snapshot without its time stamp line
 func c19Body(snap string) string {
@@ -57,6 +82,7 @@ func c19(args []string) {
 	session := func(job c19Job) c19Res {
 		in, _ := json.Marshal(job)
 		cmd := exec.Command(self, "c19session")
+		cmd.Env = append(os.Environ(), "GOMAXPROCS=2") // many short processes side by side
 		cmd.Stdin = bytes.NewReader(in)
 		var stdout bytes.Buffer
 		cmd.Stdout = &stdout
@@ -82,20 +108,37 @@ func c19(args []string) {
 		if err := json.Unmarshal(line, &st); err != nil {
 			panic(err)
 		}
-		first := session(c19Job{Forms: st.Forms, Probes: st.Probes})
-		second := session(c19Job{Snap: first.Snap, Probes: st.Probes})
 		pad := func(p []string) []string {
 			for len(p) < len(st.Probes) {
 				p = append(p, "not run")
 			}
 			return p
 		}
+		first := session(c19Job{Forms: st.Forms, Probes: st.Probes, Objs: st.Objs})
+		second := session(c19Job{Snap: first.Snap, Probes: st.Probes})
+		// the objects of the session rebuilt from their pretty-printed load forms, once per distinct text
+		lf := []h.V{}
+		seen := map[string]int{}
+		for _, t := range first.LF {
+			key := t.St + "\x00" + strings.Join(t.Texts, "\x00")
+			if i, has := seen[key]; has {
+				lf[i]["margins"] = append(lf[i]["margins"].([]int), t.Margin)
+				continue
+			}
+			seen[key] = len(lf)
+			ev := h.V{"margins": []int{t.Margin}, "st": t.St, "p": pad(nil), "texts": t.Texts}
+			if t.St == "ok" {
+				third := session(c19Job{Forms: t.Texts, Probes: st.Probes})
+				ev["st"], ev["p"] = third.St, pad(third.Probes)
+			}
+			lf = append(lf, ev)
+		}
 		snap := c19Body(first.Snap)
 		if 6000 < len(snap) {
 			snap = snap[:6000]
 		}
 		out.Emit(h.V{"id": st.ID, "items": st.Items, "st1": first.St, "p1": pad(first.Probes), "st2": second.St, "p2": pad(second.Probes),
-			"same": first.St == "ok" && second.St == "ok" && c19Body(first.Snap) == c19Body(second.Snap), "snap": snap})
+			"same": first.St == "ok" && second.St == "ok" && c19Body(first.Snap) == c19Body(second.Snap), "snap": snap, "lf": lf})
 	})
 }
 
@@ -106,7 +149,12 @@ func c19session(args []string) {
 	s := slip.NewScope()
 	for _, f := range job.Forms {
 		if o := h.Eval(s, f); !o.OK() {
-			res.St = "form " + f + ": " + o.Class + ": " + o.Msg
+			if res.St == "ok" {
+				res.St = ""
+			} else {
+				res.St += " ;; "
+			}
+			res.St += "form " + f + ": " + o.Class + ": " + o.Msg
 		}
 	}
 	if 0 < len(job.Snap) {
@@ -126,6 +174,30 @@ func c19session(args []string) {
 		} else {
 			res.Probes = append(res.Probes, "error")
 		}
+	}
+	for _, margin := range c19Margins {
+		if len(job.Objs) == 0 {
+			break
+		}
+		t := c19Texts{Margin: margin, St: "ok", Texts: []string{}}
+		for _, ob := range job.Objs {
+			var form slip.Object
+			o := h.Eval(s, "(make-load-form "+ob.Expr+")")
+			if !o.OK() {
+				t.St = "make-load-form " + ob.Expr + ": " + o.Class + ": " + o.Msg
+				break
+			}
+			form = o.Val
+			ps := slip.NewScope()
+			ps.Let(slip.Symbol("*print-right-margin*"), slip.Fixnum(margin))
+			var text string
+			if o = h.Try(func() slip.Object { text = string(pp.Append(nil, ps, form)); return nil }); !o.OK() {
+				t.St = "pretty print of the load form of " + ob.Expr + ": " + o.Class + ": " + o.Msg
+				break
+			}
+			t.Texts = append(t.Texts, ob.Pre+strings.TrimRight(text, "\n")+ob.Post)
+		}
+		res.LF = append(res.LF, t)
 	}
 	if o := h.Eval(s, "(snapshot nil)"); o.OK() {
 		if str, ok := o.Val.(slip.String); ok {
